@@ -1,13 +1,18 @@
 (* C20 — FTPFS._parse_ftp_time (fs/ftpfs.py): the six fixed-width decimal fields of an
    MLSD "modify=YYYYMMDDHHMMSS[.sss]" value.
 
-       tm_year = int(t[0:4]); tm_month = int(t[4:6]); ... tm_sec = int(t[12:14])
-       (ValueError inside the try -> None)
-       return calendar.timegm((tm_year, tm_month, tm_day, tm_hour, tm_min, tm_sec))
+       try:
+           tm_year = int(t[0:4]); tm_month = int(t[4:6]); ... tm_sec = int(t[12:14])
+           epoch_time = calendar.timegm((tm_year, tm_month, tm_day, tm_hour, tm_min, tm_sec))
+       except ValueError:
+           return None
+       return epoch_time
 
    calendar.timegm builds datetime.date(year, month, 1) and adds day, hour, minute and
-   second arithmetically: it raises ValueError (outside the try!) when year = 0 or month
-   is not in 1..12 and silently accepts any day/hour/minute/second.
+   second arithmetically: it raises ValueError when year = 0 or month is not in 1..12 (now
+   inside the try, so the result is None; before the repair the call was outside the try and
+   the ValueError escaped from the MLSD parser) and silently accepts any day / hour / minute /
+   second.
 
    Scope of the model: the fields are decoded as ASCII decimal digits.  Python's int()
    additionally accepts surrounding white space, a sign, '_' between digits and non-ASCII
@@ -87,18 +92,18 @@ Definition timegm (f : fields) : Z :=
 Definition timegm_ok (f : fields) : bool :=
   ((1 <=? f_year f) && (1 <=? f_month f) && (f_month f <=? 12))%N.
 
-(* the code as written: Ok None = returns None, Crash ValueError = timegm raises *)
+(* the code as written: Ok None = returns None (also when timegm raises ValueError) *)
 Definition ftp_time_impl (s : str) : outcome (option Z) :=
   match ftp_time_fields s with
   | None => Ok None
-  | Some f => if timegm_ok f then Ok (Some (timegm f)) else Crash ValueError
+  | Some f => if timegm_ok f then Ok (Some (timegm f)) else Ok None
   end.
 
-(* expected outcome as written by the harness: 0 = None, 1 = ValueError, 2 = Some v *)
+(* expected outcome as written by the harness: 0 = None, 2 = Some v; any other code (an
+   exception of the real code) agrees with nothing *)
 Definition time_agrees (s : str) (code : N) (v : Z) : bool :=
   match ftp_time_impl s, code with
   | Ok None, 0%N => true
-  | Crash ValueError, 1%N => true
   | Ok (Some w), 2%N => Z.eqb w v
   | _, _ => false
   end.
